@@ -153,6 +153,8 @@ def ser(e) -> str:
     if e[0] == "lit":
         return lit_tok(e[1])
     _, cls, n, v, kids, extra = e
+    if cls == "const" and len(v) == 1 and isinstance(v[0], tuple):
+        return lit_tok(v[0])       # a constant tuple has no register syntax: the bare literal is the same node
     parts = ["(", cls]
     parts += ["{"] + [str(int(x)) for x in n] + ["}"]
     if v:
@@ -170,11 +172,32 @@ def ser(e) -> str:
 
 
 class RecRandom(__import__("random").Random):
-    """random.Random that records its primitive draws (installed as pattern.rng)."""
+    """random.Random that records its primitive draws (installed as pattern.rng on every stochastic node).
+
+    `tape` = the draws since the last (re)seed; `best` = the longest such recording so far (after reset() /
+    seed(s) the same draws repeat, so recordings are prefixes of one another: `conflict` is set when they are
+    not).  A deep copy (Pattern.copy) carries the recording so far and registers itself with the same owner."""
 
     def __init__(self, *a):
-        super().__init__(*a)
         self.tape = []
+        self.best = []
+        self.conflict = False
+        self.owner = None          # the `extra` dict of the AST node this generator belongs to
+        self.registry = None       # list of (owner, RecRandom) of the current run
+        super().__init__(*a)
+
+    def _flush(self):
+        t, b = self.tape, self.best
+        m = min(len(t), len(b))
+        if t[:m] != b[:m]:
+            self.conflict = True
+        if len(t) > len(b):
+            self.best = list(t)
+
+    def seed(self, *a, **kw):
+        self._flush()
+        self.tape = []
+        return super().seed(*a, **kw)
 
     def random(self):
         u = super().random()
@@ -189,22 +212,57 @@ class RecRandom(__import__("random").Random):
     def getrandbits(self, k):
         return super().getrandbits(k)
 
+    def recording(self):
+        self._flush()
+        return self.best
+
+    def __deepcopy__(self, memo):
+        c = RecRandom()
+        c.setstate(self.getstate())
+        c.tape, c.best, c.conflict = list(self.tape), list(self.best), self.conflict
+        c.owner, c.registry = self.owner, self.registry
+        if c.registry is not None:
+            c.registry.append((c.owner, c))
+        return c
+
+    def __reduce__(self):
+        return (RecRandom, (), self.getstate())
+
 
 def build(e, recorders=None):
-    """expression -> real object (a Pattern, or a plain scalar for literals)"""
+    """expression -> real object (a Pattern, or a plain scalar for literals).  With `recorders` (a list) every
+    stochastic node gets a recording generator seeded with the node's seed; (extra dict, generator) is appended."""
     if e[0] == "lit":
         return e[1]
     _, cls, n, v, kids, extra = e
     kp = [build(k, recorders) for k in kids]
     obj = REG[cls].build(n, v, kp, extra)
-    if REG[cls].stochastic and recorders is not None:
+    if REG[cls].stochastic:
         seed = extra.get("seed", 0)
-        rr = RecRandom()
-        obj.rng = rr
-        obj.seed(seed)
-        rr.tape = []
-        recorders.append((e, rr))
+        if recorders is not None:
+            rr = RecRandom()
+            rr.owner, rr.registry = extra, recorders
+            obj.rng = rr
+            obj.seed(seed)
+            rr.tape, rr.best = [], []
+            recorders.append((extra, rr))
+        else:
+            obj.seed(seed)
     return obj
+
+
+def write_tapes(recorders):
+    """after the implementation has run: the longest recording of each node becomes its model tape"""
+    best = {}
+    for extra, rr in recorders:
+        t = rr.recording()
+        cur = best.get(id(extra))
+        if cur is None or len(t) > len(cur[1]):
+            best[id(extra)] = (extra, t)
+        if rr.conflict:
+            extra["tape_conflict"] = True
+    for extra, t in best.values():
+        extra["tape"] = list(t)
 
 
 def wrap_lit(v, how):
@@ -264,13 +322,14 @@ def run_impl(script, timeout_s=10):
        ('reset', slot) ('copy', slot, new) ('setkid', slot, i, expr)"""
     slots = {}
     outs = []
+    recorders = []
     old = signal.signal(signal.SIGALRM, _alarm)
     try:
         for cmd in script:
             signal.alarm(timeout_s)
             try:
                 if cmd[0] == "def":
-                    obj = build(cmd[2])
+                    obj = build(cmd[2], recorders)
                     if not isinstance(obj, iso.Pattern):
                         obj = iso.PConstant(obj)
                     slots[cmd[1]] = obj
@@ -297,7 +356,7 @@ def run_impl(script, timeout_s=10):
                     slots[cmd[2]] = slots[cmd[1]].copy()
                     outs.append("ok")
                 elif cmd[0] == "setkid":
-                    obj = build(cmd[3])
+                    obj = build(cmd[3], recorders)
                     if not isinstance(obj, iso.Pattern):
                         obj = iso.PConstant(obj)
                     slots[cmd[1]].set_pattern(obj)
@@ -311,6 +370,7 @@ def run_impl(script, timeout_s=10):
                 signal.alarm(0)
     finally:
         signal.signal(signal.SIGALRM, old)
+        write_tapes(recorders)
     return outs
 
 
